@@ -279,7 +279,8 @@ from pyvc.sym import K_INT
 
 class CombineLatestRemoveUpstream(IndexedInputs, TopoBase):
     qual = 'combine_latest._remove_upstream'
-    props = ['C15']
+    # (the per-input slots of last / metadata must stay aligned with the inputs: C01 values, C10 metadata of the tuple members)
+    props = ['C15', 'C01', 'C10']
     inline = ('Stream._remove_upstream',)
 
     def build(self, I):
@@ -322,7 +323,7 @@ class CombineLatestRemoveUpstream(IndexedInputs, TopoBase):
 
 class CombineLatestAddUpstream(IndexedInputs, TopoBase):
     qual = 'combine_latest._add_upstream'
-    props = ['C15']
+    props = ['C15', 'C01', 'C10']
     inline = ('Stream._add_upstream',)
 
     def build(self, I):
